@@ -557,6 +557,8 @@ def copy_siblings(ctx, res, only):
                 continue
             res.instance(key, mod.loc(fn))
             selfn, memon = [a.arg for a in fn.args.args[:2]]
+            from ..pyfacts import loops_to_comprehensions
+            fn = loops_to_comprehensions(fn)
             calls = [n for n in ast.walk(fn) if isinstance(n, ast.Call)
                      and norm(n.func) in (cls.name, f"type({selfn})",
                                           f"{selfn}.__class__")]
@@ -897,7 +899,45 @@ def index_protocol(ctx, res):
         if fn.name == "__imul__" and len(ps) == 2:
             funcs.append((qual, fn, ps[1]))
     n = 0
+
+    def converted_by_every_caller(qual, fn, p):
+        """a private module-level helper whose `p` argument is, at every
+        call site in the module, the result of operator.index (directly or
+        through a local converted before the call)"""
+        if "." in qual or not qual.startswith("_"):
+            return False
+        ps_ = [a.arg for a in fn.args.args]
+        k = ps_.index(p)
+        sites = []
+        for q2, f2 in mod.functions.items():
+            for c in ast.walk(f2):
+                if isinstance(c, ast.Call) and isinstance(c.func, ast.Name) \
+                        and c.func.id == qual and len(c.args) > k:
+                    sites.append((f2, c))
+        if not sites:
+            return False
+        for f2, c in sites:
+            a = c.args[k]
+            if isinstance(a, ast.Call) and norm(a.func) in ("operator.index",
+                                                            "int"):
+                continue
+            if isinstance(a, ast.Name) and any(
+                    isinstance(d, ast.Assign)
+                    and any(isinstance(t, ast.Name) and t.id == a.id
+                            for t in d.targets)
+                    and isinstance(d.value, ast.Call)
+                    and norm(d.value.func) in ("operator.index", "int")
+                    and d.lineno < c.lineno for d in ast.walk(f2)):
+                continue
+            return False
+        return True
     for qual, fn, p in funcs:
+        if converted_by_every_caller(qual, fn, p):
+            n += 1
+            res.instance(qual, mod.loc(fn), parameter=p,
+                         converted="by every caller")
+            res.oblige(True, qual, "", "")
+            continue
         uses = []
 
         class F(FactFlow):
